@@ -12,9 +12,14 @@ from harness import election as E
 def client_runs(run, n, props):
     rng = run.rng
     for _ in range(n):
+        dist = rng.random() < 0.35
         e = E.gen_election(rng, size=rng.choice(["small", "medium"]), roles=["reporting"] * 6 + ["partial"] * 3 + ["zero-percent", "blocklisted"],
-                           min_reporting=14)
-        contests = sorted(set(e.states) | set(e.cur["postal_code"]))
+                           min_reporting=14, district=dist, many_districts=dist and rng.random() < 0.7, unexpected=not dist)
+        if dist:
+            # the contests of a district election are the (state, district) pairs, named <state>_<district>
+            contests = sorted({f"{r['postal_code']}_{r['district']}" for r in e.pre.to_dict(orient="records")})
+        else:
+            contests = sorted(set(e.states) | set(e.cur["postal_code"]))
         mode = rng.choice(["none", "stop-only", "call-only", "mixed", "mixed", "invalid"])
         lhs = rhs = stop = []
         if mode in ("call-only", "mixed"):
@@ -32,9 +37,11 @@ def client_runs(run, n, props):
                 stop = ["QQ"]
         alphas = rng.sample([0.5, 0.75, 0.9], 2)
         aggs = rng.choice([["postal_code", "unit"], ["postal_code", "county_fips", "unit"], ["county_fips", "postal_code"]])
+        if dist:
+            aggs = rng.choice([["district", "unit"], ["district", "county_fips", "unit"], ["postal_code", "district"]])
         B = rng.choice([4, 8, 16])
         case = {"api_boot": True, "election": e.describe(), "lhs": lhs, "rhs": rhs, "stop": stop, "mode": mode, "alphas": alphas,
-                "aggregates": aggs, "B": B}
+                "aggregates": aggs, "B": B, "district_election": dist}
         extra = {}
         # the client hands the lists on as they come: list, tuple or set
         wrap = rng.choice([list, list, tuple, set])
@@ -62,9 +69,9 @@ def client_runs(run, n, props):
                                   signature=f"{p}:api-raise", election=e.to_json())
             continue
         t = res["tables"]
-        sd = t["state_data"]
+        sd = t["district_data"] if dist else t["state_data"]
         for r in sd.to_dict(orient="records"):
-            c = r["postal_code"]
+            c = f"{r['postal_code']}_{r['district']}" if dist else r["postal_code"]
             called = "lhs" if c in lhs else "rhs" if c in rhs else "none"
             stopped = c in stop
             pm = r["pred_margin"]
@@ -101,7 +108,9 @@ def client_runs(run, n, props):
                 for r in df.to_dict(orient="records"):
                     aa = sorted(alphas)
                     for a, b in zip(aa, aa[1:]):
-                        if name != "state_data" or (r["postal_code"] not in lhs + rhs + stop):
+                        top = "district_data" if dist else "state_data"
+                        ckey = f"{r['postal_code']}_{r.get('district')}" if dist else r["postal_code"]
+                        if name != top or (ckey not in list(lhs) + list(rhs) + list(stop)):
                             if r[f"lower_{b}_margin"] > r[f"lower_{a}_margin"] + 1e-9 or r[f"upper_{a}_margin"] > r[f"upper_{b}_margin"] + 1e-9:
                                 run.violation("intervals not nested by level", input=case, table=name, impl=r, predicate="agg_nested / unit_nested",
                                               signature="C06:api-nested", election=e.to_json())
